@@ -224,9 +224,18 @@ def run_case(ck, desc):
             dup = rng.choice(len(t), size=len(t) // 4, replace=False)
             t = np.concatenate([t, t[dup]])
             yn = np.concatenate([yn, yn[dup] * (1 + 0.05 * rng.standard_normal(len(dup)))])
-            perm = rng.permutation(len(t))
-            t, yn = t[perm], yn[perm]
             ck.count("fits_with_repeated_time_stamps")
+            if int(M * 1e3) % 3 != 0:
+                perm = rng.permutation(len(t))
+                t, yn = t[perm], yn[perm]
+                ck.count("fits_with_records_out_of_time_order")
+        if len(t) > 20 and int(M * 1e3) % 2 == 0:
+            # a well that produced nothing during its first days: exact zeros at positive times are data
+            order = np.argsort(t, kind="stable")
+            first = order[t[order] > 0][:4]
+            yn = yn.copy()
+            yn[first] = 0.0
+            ck.count("fits_with_leading_zero_records")
         fo = ForecasterOnePhase(f, Bounds(M=(lo, hi), tau=(1e-10, np.inf)))
         try:
             with warnings.catch_warnings():
